@@ -279,6 +279,24 @@ static std::string do_parse(no::parser& p, const Decl& d, const std::vector<std:
     }
 }
 
+// the parser that a move assignment overwrites: it has options, settings and a parse (of a bundle) of its own
+static void make_used(no::parser& q)
+{
+    q.toggle("dropped", "d").short_name("D");
+    q.toggle("dropped2", "d").short_name("E");
+    q.option("dropped3", "d").short_name("F").optional();
+    q.accept_positionals(7);
+    q.greedy_postionals();
+    const char* av[] = { "prog", "-DE", "-DDE", "--dropped3", "x", "pos" };
+    try
+    {
+        q.parse(6, av);
+    }
+    catch (std::exception&)
+    {
+    }
+}
+
 static std::string b(bool x)
 {
     return x ? "1" : "0";
@@ -362,9 +380,7 @@ static std::string handle(const std::vector<std::string>& f0)
         {
             // ... or move-assigned over another parser (which had a declaration and settings of its own)
             no::parser q("other");
-            q.toggle("dropped", "d").short_name("D");
-            q.accept_positionals(7);
-            q.greedy_postionals();
+            make_used(q);
             q = std::move(p);
             r = do_parse(q, d, nv::unhex_list(f.at(3)));
         }
@@ -396,7 +412,7 @@ static std::string handle(const std::vector<std::string>& f0)
                 else
                 {
                     auto nxt = std::make_unique<no::parser>("other");
-                    nxt->toggle("dropped", "d");
+                    make_used(*nxt);
                     *nxt = std::move(*cur);
                     cur = std::move(nxt);
                 }
@@ -602,6 +618,42 @@ static std::string run_decl(const std::string& ops)
                 catch (no::parsing_error&)
                 {
                     res = "user";
+                }
+                catch (no::parser_error&)
+                {
+                    res = "dev";
+                }
+                // the other entry point on the same object: same kind of outcome (refuses what the first refuses)
+                std::vector<no::user_input> ui;
+                bool constructible = true;
+                try
+                {
+                    for (auto& s : argv)
+                        ui.emplace_back(s);
+                }
+                catch (no::parsing_error&)
+                {
+                    constructible = false;
+                }
+                if (constructible)
+                {
+                    std::string kind2;
+                    try
+                    {
+                        p->parse(ui);
+                        kind2 = "parsed";
+                    }
+                    catch (no::parsing_error&)
+                    {
+                        kind2 = "user";
+                    }
+                    catch (no::parser_error&)
+                    {
+                        kind2 = "dev";
+                    }
+                    std::string kind1 = res.substr(0, res.find(' '));
+                    if (kind1 != kind2)
+                        res = "ENTRY-POINTS-DIFFER argv:" + kind1 + " user_input:" + kind2;
                 }
             }
             else
